@@ -527,6 +527,19 @@ fn real_bfs<C: RealCurve>(ctx: &Ctx, rv: &RealV<C>, depth: usize) {
             inits.push(vec![rreg::<C>(gs[1]), rreg::<C>(same_y[0]), rreg::<C>(C::Proj::zero())]);
         }
     }
+    if !ctx.quick() {
+        // non-initial starting points: small-order and l*r-order points, same-y pairs, garbage identity encodings
+        let small = rv.v.iter().filter(|e| e.2.starts_with("P1") && e.2.contains(" order 1")).map(|e| e.0).collect::<Vec<_>>();
+        let same_y = rv.v.iter().filter(|e| e.2.starts_with("beta*g")).map(|e| e.0).collect::<Vec<_>>();
+        let ids = rv.v.iter().filter(|e| e.2.starts_with("O as")).map(|e| e.0).collect::<Vec<_>>();
+        if small.len() >= 2 {
+            inits.push(vec![rreg::<C>(small[0]), rreg::<C>(small[1]), rreg::<C>(gs[0])]);
+        }
+        if !same_y.is_empty() && ids.len() >= 3 {
+            inits.push(vec![rreg::<C>(same_y[same_y.len() - 1]), rreg::<C>(gs[gs.len() - 1]), rreg::<C>(ids[2])]);
+            inits.push(vec![rreg::<C>(ids[1]), rreg::<C>(ids[2]), rreg::<C>(ngs[0])]);
+        }
+    }
     let desc: Vec<String> = inits.iter().map(|f| f.iter().map(|r| C::show(&C::pt_of(&r.p))).collect::<Vec<_>>().join(" ; ")).collect();
     let sys = RealRegs::<C> { inits, _c: PhantomData };
     let res = explore(sys, Some(depth), ctx.threads, false);
